@@ -513,34 +513,41 @@ class SegmentWriter(IndexWriter):
                            delay=delay):
                 raise LockError
 
-        if codec is None:
-            from whoosh.codec import default_codec
-            codec = default_codec()
-        self.codec = codec
+        # If anything below fails, the lock must not stay behind: nobody holds
+        # a writer object that could release it
+        try:
+            if codec is None:
+                from whoosh.codec import default_codec
+                codec = default_codec()
+            self.codec = codec
 
-        # Get info from the index
-        self.storage = ix.storage
-        self.indexname = ix.indexname
-        info = ix._read_toc()
-        self.generation = info.generation + 1
-        self.schema = info.schema
-        self.segments = info.segments
-        self.docnum = self.docbase = docbase
-        self._setup_doc_offsets()
+            # Get info from the index
+            self.storage = ix.storage
+            self.indexname = ix.indexname
+            info = ix._read_toc()
+            self.generation = info.generation + 1
+            self.schema = info.schema
+            self.segments = info.segments
+            self.docnum = self.docbase = docbase
+            self._setup_doc_offsets()
 
-        # Internals
-        self._tempstorage = self.storage.temp_storage("%s.tmp" % self.indexname)
-        newsegment = codec.new_segment(self.storage, self.indexname)
-        self.newsegment = newsegment
-        self.compound = compound and newsegment.should_assemble()
-        self.is_closed = False
-        self._added = False
-        self.pool = PostingPool(self._tempstorage, self.newsegment,
-                                limitmb=limitmb)
+            # Internals
+            self._tempstorage = self.storage.temp_storage("%s.tmp" % self.indexname)
+            newsegment = codec.new_segment(self.storage, self.indexname)
+            self.newsegment = newsegment
+            self.compound = compound and newsegment.should_assemble()
+            self.is_closed = False
+            self._added = False
+            self.pool = PostingPool(self._tempstorage, self.newsegment,
+                                    limitmb=limitmb)
 
-        # Set up writers
-        self.perdocwriter = codec.per_document_writer(self.storage, newsegment)
-        self.fieldwriter = codec.field_writer(self.storage, newsegment)
+            # Set up writers
+            self.perdocwriter = codec.per_document_writer(self.storage, newsegment)
+            self.fieldwriter = codec.field_writer(self.storage, newsegment)
+        except:
+            if self.writelock:
+                self.writelock.release()
+            raise
 
         self.merge = True
         self.optimize = False
